@@ -481,7 +481,10 @@ func ruleIDHandling(c *chk.Ctx) {
 			if !ok || !chk.IsField(st.Addr, c.M.JID) {
 				return
 			}
-			if _, isAlloc := ir.NormCell(st.Addr.(*ssa.FieldAddr).X).(*ssa.Alloc); isAlloc {
+			// (construction of a fresh message from known parts is not parsing — unless what is
+			// stored is a token of the decoded member object: a parser may fill a local
+			// message first and copy it out whole)
+			if _, isAlloc := ir.NormCell(st.Addr.(*ssa.FieldAddr).X).(*ssa.Alloc); isAlloc && !fromDecodedObject(c, st.Val) {
 				return
 			}
 			// the member parser: a method of the message type, or whoever stores a token of the
@@ -759,27 +762,112 @@ func ruleEncoderWritesIn(c *chk.Ctx, f *ssa.Function, encs map[*ssa.Function]boo
 			}
 			return "", false
 		}
-		switch x := arg.(type) {
-		case *ssa.Const:
-			ok, why = true, "constant"
-		case *ssa.Extract:
-			if call, isCall := x.Tuple.(*ssa.Call); isCall && x.Index == 0 {
-				isMarshal := ir.IsCallTo(&call.Call, "encoding/json.Marshal")
-				isEnc := call.Call.StaticCallee() != nil && encs[call.Call.StaticCallee()]
-				if isMarshal || isEnc {
-					sameErr := func(v ssa.Value) bool { return ir.IsExtractOf(v, call, 1) }
-					if ir.ProvesNil(em.conds(), sameErr) {
-						ok, why = true, "json.Marshal / encoder result on its err == nil edge"
-					} else {
-						why = "marshal result written without checking its error"
+		// checkedResult: v is the bytes of json.Marshal / an element encoder, and wherever it is
+		// used (written, or put into a list to be written later) the call's error is known nil
+		checkedResult := func(v ssa.Value, at []ir.Cond) (bool, bool) {
+			x, isE := v.(*ssa.Extract)
+			if !isE || x.Index != 0 {
+				return false, false
+			}
+			call, isCall := x.Tuple.(*ssa.Call)
+			if !isCall {
+				return false, false
+			}
+			isMarshal := ir.IsCallTo(&call.Call, "encoding/json.Marshal")
+			isEnc := call.Call.StaticCallee() != nil && encs[call.Call.StaticCallee()]
+			if !isMarshal && !isEnc {
+				return false, false
+			}
+			sameErr := func(v ssa.Value) bool { return ir.IsExtractOf(v, call, 1) }
+			if at != nil {
+				return true, ir.ProvesNil(at, sameErr)
+			}
+			// kept for later: every place the value goes is on the err == nil edge
+			all := len(*x.Referrers()) > 0
+			for _, ref := range *x.Referrers() {
+				if in, isIns := ref.(ssa.Instruction); isIns && !ir.ProvesNil(ir.CondsAt(in.Block()), sameErr) {
+					all = false
+				}
+			}
+			return true, all
+		}
+		var safe func(arg ssa.Value, at []ir.Cond, depth int) (bool, string)
+		safe = func(arg ssa.Value, at []ir.Cond, depth int) (bool, string) {
+			if depth > 3 {
+				return false, ""
+			}
+			if _, isK := arg.(*ssa.Const); isK {
+				return true, "constant"
+			}
+			if isRes, checked := checkedResult(arg, at); isRes {
+				if checked {
+					return true, "json.Marshal / encoder result on its err == nil edge"
+				}
+				return false, "marshal result written without checking its error"
+			}
+			if name, isRaw := rawField(arg); isRaw {
+				return true, "raw field " + name + " (JSON by construction, see PROV.raw)"
+			}
+			// an element of a list of pieces collected earlier: every piece put into it
+			if u, isU := arg.(*ssa.UnOp); isU && u.Op == token.MUL {
+				if ia, isIA := u.X.(*ssa.IndexAddr); isIA {
+					if els, known := c.P.ElementValues(ia.X); known && len(els) > 0 {
+						for _, e := range els {
+							if okE, whyE := safe(e, nil, depth+1); !okE {
+								return false, whyE
+							}
+						}
+						return true, "pieces collected on their success edges"
 					}
 				}
 			}
-		default:
-			if name, isRaw := rawField(arg); isRaw {
-				ok, why = true, "raw field "+name+" (JSON by construction, see PROV.raw)"
+			// the pieces joined with a constant separator
+			if call, isCall := arg.(*ssa.Call); isCall && ir.IsCallTo(&call.Call, "bytes.Join") && len(call.Call.Args) == 2 {
+				sepOK := false
+				if sl, isSl := call.Call.Args[1].(*ssa.Slice); isSl {
+					if al, isAl := sl.X.(*ssa.Alloc); isAl {
+						sepOK = true
+						for _, ref := range *al.Referrers() {
+							if ia, isIA := ref.(*ssa.IndexAddr); isIA {
+								for _, r2 := range *ia.Referrers() {
+									if st, isSt := r2.(*ssa.Store); isSt {
+										if _, isK := st.Val.(*ssa.Const); !isK {
+											sepOK = false
+										}
+									}
+								}
+							}
+						}
+					}
+				}
+				if els, known := c.P.ElementValues(call.Call.Args[0]); known && len(els) > 0 && sepOK {
+					for _, e := range els {
+						if okE, whyE := safe(e, nil, depth+1); !okE {
+							return false, whyE
+						}
+					}
+					return true, "pieces collected on their success edges, joined with a constant"
+				}
 			}
+			// a field of the record a private helper returned: its value at each of the helper's returns
+			if hc, ri, fk, isRes := ir.StructFieldOrigin(ir.NormCell(arg)); isRes {
+				if h := hc.Call.StaticCallee(); h != nil && c.P.InRepo[h] && !ir.Exported(h) {
+					if fvs, known := ir.ResultFieldVals(h, ri, fk); known {
+						for _, fv := range fvs {
+							if fv.Zero {
+								continue
+							}
+							if okE, whyE := safe(fv.Val, ir.CondsAt(fv.Ret.Block()), depth+1); !okE {
+								return false, whyE
+							}
+						}
+						return true, "a member prepared by " + ir.Name(h) + " from safe pieces"
+					}
+				}
+			}
+			return false, ""
 		}
+		ok, why = safe(arg, em.conds(), 0)
 		if !ok && why == "" {
 			why = fmt.Sprintf("%T is neither a constant, a checked json.Marshal result, nor a raw ID/P/R field", arg)
 		}
@@ -883,6 +971,27 @@ func ruleEncoderWritesIn(c *chk.Ctx, f *ssa.Function, encs map[*ssa.Function]boo
 				if r, ok := succ.Instrs[len(succ.Instrs)-1].(*ssa.Return); ok && len(r.Results) == last+1 && isErrOf(ir.ReturnResult(r, last)) {
 					edgeOK = true
 				}
+			}
+		}
+		if !(propagated && edgeOK) {
+			// the error may be collected in a variable and returned at a shared exit (or returned
+			// unconditionally, nil or not): then on every path that is feasible when the call
+			// failed, what the function returns as its error is that very error
+			allRet, nRet := true, 0
+			complete := ir.WalkNilPathsKnowing(call.Block(), isErrOf, func(path []*ssa.BasicBlock, resolve func(ssa.Value) ssa.Value) bool {
+				b := path[len(path)-1]
+				r, isRet := b.Instrs[len(b.Instrs)-1].(*ssa.Return)
+				if !isRet {
+					return true
+				}
+				nRet++
+				if len(r.Results) != last+1 || !isErrOf(ir.NormCell(resolve(ir.ReturnResult(r, last)))) {
+					allRet = false
+				}
+				return false
+			})
+			if complete && allRet && nRet > 0 {
+				propagated, edgeOK = true, true
 			}
 		}
 		c.Check(propagated && edgeOK, "ERR.propagate", f, "encoder error propagates", call.Pos(), "on the err != nil edge the encoder returns that error immediately", "an encoding error inside the encoder is not returned on its err != nil edge (skipped or swallowed): the output could be a malformed message")
@@ -1585,6 +1694,20 @@ func ruleServerErrorMapping(c *chk.Ctx, d *dispatchModel) {
 					expand(ir.ReturnResult(r, 0), append(append([]ir.Cond{}, conds...), ir.CondsAt(r.Block())...), r.Pos(), depth+1)
 				}
 				return
+			}
+		case *ssa.Extract:
+			// one result of a private "outcome" helper (result bytes, error object)
+			if call, isCall := x.Tuple.(*ssa.Call); isCall {
+				if g := call.Call.StaticCallee(); g != nil && c.P.InRepo[g] && c.P.InExt(f, g) && x.Index < g.Signature.Results().Len() {
+					for _, r := range ir.Returns(g) {
+						expand(ir.ReturnResult(r, x.Index), append(append([]ir.Cond{}, conds...), ir.CondsAt(r.Block())...), r.Pos(), depth+1)
+					}
+					return
+				}
+			}
+		case *ssa.Const:
+			if x.IsNil() && depth > 0 {
+				return // the helper's "no error" result: no error member
 			}
 		}
 		assigns = append(assigns, assign{v, conds, pos})
